@@ -1,3 +1,3 @@
 #!/bin/sh
 # replays this counterexample against the real build
-cd /tmp/dbg_x && VERIF_SCRIPT=/verif/replays/C04/VHarnessVerifyProofs_c46d9db2_0/script.json VERIF_RAW_SALT=0 GOFLAGS=-mod=mod GOPROXY=off go test -vet=off -count=1 -overlay /verif/replays/C04/VHarnessVerifyProofs_c46d9db2_0/overlay.json -run ^TestVerifReplay_VHarnessVerifyProofs$ -v ./mint
+cd /tmp/seedrepo_C04b && VERIF_SCRIPT=/verif/replays/C04/VHarnessVerifyProofs_c46d9db2_0/script.json VERIF_RAW_SALT=0 GOFLAGS=-mod=mod GOPROXY=off go test -vet=off -count=1 -overlay /verif/replays/C04/VHarnessVerifyProofs_c46d9db2_0/overlay.json -run ^TestVerifReplay_VHarnessVerifyProofs$ -v ./mint
